@@ -2,12 +2,16 @@
 //! `LogConfig` set through `State::configure_log`, exports the log with `Log::to_json` /
 //! `Log::to_cbor`, decodes both files and prints them next to the uncompressed log; serialises real
 //! configurations (all templates, generated trees) through `Configuration::to_ron` and `serde_json`.
-use std::collections::{BTreeSet, VecDeque};
+//! Every export goes to a path that may already hold something (an older, longer or shorter export,
+//! junk): the WHOLE file written by the real code is decoded. Site `exp*`: sequences of real
+//! `par_experiment` calls into one folder (child process: the runner prints to stdout), after each
+//! call `configuration.ron` is read back as a tree and every `<problem>_<run>.cbor` is decoded.
+use std::collections::{BTreeSet, HashMap, VecDeque};
 use std::path::PathBuf;
 use std::sync::{Arc, Mutex};
 
 use better_any::{Tid, TidAble};
-use hcommon::problems::{Sphere, TagProblem};
+use hcommon::problems::Sphere;
 use hcommon::templates::*;
 use hcommon::*;
 use mahf::components::{initialization, mutation, replacement, selection, utils::Noop, Block, Branch, Loop, Scope};
@@ -19,7 +23,8 @@ use mahf::logging::log::Entry;
 use mahf::logging::Logger;
 use mahf::state::common::{Evaluations, Iterations, Progress};
 use mahf::verif::{Phase, StepObserver};
-use mahf::{Component, Condition, Configuration, CustomState, ExecResult, Problem, Random, State};
+use mahf::problems::KnownOptimumProblem;
+use mahf::{Component, Condition, Configuration, CustomState, ExecResult, Problem, Random, SingleObjective, State};
 use serde::Serialize;
 
 // ------------------------------------------------------------------------------------------------
@@ -183,9 +188,111 @@ fn tmp_dir() -> PathBuf {
     d
 }
 
-/// Exports `log` through `to_json` and `to_cbor`, decodes both files.
-/// → `(raw …) (json (names…) (steps…)) (cbor (names…) (steps…))`, or `None` if an export is malformed.
-fn export_log(log: &mahf::logging::Log) -> Result<[String; 3], &'static str> {
+/// What an export path holds BEFORE the real code writes to it.
+#[derive(Clone, Debug, PartialEq)]
+enum PreKind {
+    /// no such file
+    Fresh,
+    /// `n` bytes of printable junk
+    Junk(u64),
+    /// an older export (same format, written by the real code) of a log with `k` steps of two entries
+    Older(u64),
+    /// the export of this very log, done once before
+    Same,
+}
+impl PreKind {
+    fn parse(x: &Sx) -> PreKind {
+        match x {
+            Sx::A(a) if a == "fresh" => PreKind::Fresh,
+            Sx::A(a) if a == "same" => PreKind::Same,
+            l => match l.head() {
+                Some(("junk", a)) => PreKind::Junk(a[0].nat().unwrap()),
+                Some(("older", a)) => PreKind::Older(a[0].nat().unwrap()),
+                _ => panic!("pre {l:?}"),
+            },
+        }
+    }
+}
+#[derive(Clone, Debug)]
+struct Pre { json: PreKind, cbor: PreKind }
+impl Pre {
+    fn fresh() -> Pre { Pre { json: PreKind::Fresh, cbor: PreKind::Fresh } }
+    /// `(pre J C)`
+    fn parse(x: &Sx) -> Pre {
+        let (_, a) = x.head().unwrap();
+        Pre { json: PreKind::parse(&a[0]), cbor: PreKind::parse(&a[1]) }
+    }
+}
+fn junk_bytes(n: u64) -> Vec<u8> {
+    let mut r = Sm::new(n ^ 0x6a756e6b);
+    (0..n).map(|_| b' ' + (r.below(95) as u8)).collect()
+}
+/// Bytes of an older export (written by the real code into a fresh file; cached): the log of
+/// `loop k { Logger }` with the rules (always, Iterations) and (always, n1 := 7).
+fn older_export(k: u64, json: bool) -> Vec<u8> {
+    static CACHE: Mutex<Option<HashMap<(u64, bool), Vec<u8>>>> = Mutex::new(None);
+    if let Some(v) = CACHE.lock().unwrap().get_or_insert_with(HashMap::new).get(&(k, json)) { return v.clone(); }
+    let p = tmp_dir().join(if json { "older.json" } else { "older.cbor" });
+    let _ = std::fs::remove_file(&p);
+    let config: Configuration<TP> = Configuration::builder().while_(LessThanN::iterations(k as u32), |b| b.do_(Logger::new())).build();
+    let problem = LP::new("older");
+    let r = catch(|| config.optimize_with(&problem, |state| {
+        state.insert(Random::new(0));
+        state.configure_log(|c| {
+            c.with(Box::new(Const(true)), ValueOf::<Iterations>::entry());
+            c.with(Box::new(Const(true)), Box::new(Named { k: 1, src: Src::Const(7) }));
+            Ok(())
+        })
+    }));
+    let bytes = match r {
+        Some(Ok(state)) => {
+            let _ = if json { state.log().to_json(&p) } else { state.log().to_cbor(&p) };
+            std::fs::read(&p).unwrap_or_default()
+        }
+        _ => vec![],
+    };
+    let _ = std::fs::remove_file(&p);
+    CACHE.lock().unwrap().get_or_insert_with(HashMap::new).insert((k, json), bytes.clone());
+    bytes
+}
+/// Puts `path` into the state `pre` (`export` = the real export of the current log, for `Same`).
+fn prepare_path(path: &std::path::Path, pre: &PreKind, json: bool, export: &dyn Fn(&std::path::Path)) {
+    let _ = std::fs::remove_file(path);
+    match pre {
+        PreKind::Fresh => {}
+        PreKind::Junk(n) => { let _ = std::fs::write(path, junk_bytes(*n)); }
+        PreKind::Older(k) => { let _ = std::fs::write(path, older_export(*k, json)); }
+        PreKind::Same => export(path),
+    }
+}
+
+/// The decoded content of a CBOR log file: `Ok((names, steps))` only if the WHOLE file is one item of the export's shape.
+fn decode_cbor_file(bytes: &[u8]) -> Result<(Vec<String>, Vec<String>), &'static str> {
+    let mut rd: &[u8] = bytes;
+    let c: ciborium::Value = ciborium::de::from_reader(&mut rd).map_err(|_| "cbor-malformed")?;
+    if !rd.is_empty() { return Err("cbor-trailing"); }
+    let ciborium::Value::Map(top) = c else { return Err("cbor-shape") };
+    let get = |key: &str| top.iter().find(|(k, _)| k.as_text() == Some(key)).map(|(_, v)| v.clone());
+    let (Some(ciborium::Value::Array(names)), Some(ciborium::Value::Array(entries))) = (get("names"), get("entries")) else { return Err("cbor-shape") };
+    let mut cn = vec![];
+    for n in &names { cn.push(atomise(n.as_text().ok_or("cbor-shape")?)); }
+    let mut cs = vec![];
+    for m in &entries {
+        let ciborium::Value::Map(kv) = m else { return Err("cbor-shape") };
+        let mut v: Vec<(u64, String)> = vec![];
+        for (k, val) in kv {
+            let k = k.as_integer().and_then(|i| u64::try_from(i).ok()).ok_or("cbor-key")?;
+            v.push((k, canon_cbor(val)));
+        }
+        v.sort();
+        cs.push(list(v.into_iter().map(|(k, val)| list([k.to_string(), val]))));
+    }
+    Ok((cn, cs))
+}
+
+/// Exports `log` through `to_json` and `to_cbor` to paths in the state `pre`, decodes both files IN FULL.
+/// → `(raw …) (json (names…) (steps…)) (cbor (names…) (steps…))`, or the reason an export does not decode.
+fn export_log(log: &mahf::logging::Log, pre: &Pre) -> Result<[String; 3], &'static str> {
     let dir = tmp_dir();
     // uncompressed: the log's own Serialize impl, captured as a value tree that keeps every float
     let raw = ciborium::Value::serialized(log).map_err(|_| "raw-ser")?;
@@ -205,6 +312,7 @@ fn export_log(log: &mahf::logging::Log) -> Result<[String; 3], &'static str> {
     }
     // JSON export
     let jp = dir.join("log.json");
+    prepare_path(&jp, &pre.json, true, &|p| { let _ = log.to_json(p); });
     log.to_json(&jp).map_err(|_| "json-write")?;
     let text = std::fs::read_to_string(&jp).map_err(|_| "json-read")?;
     let _ = std::fs::remove_file(&jp);
@@ -226,26 +334,11 @@ fn export_log(log: &mahf::logging::Log) -> Result<[String; 3], &'static str> {
     }
     // CBOR export
     let cp = dir.join("log.cbor");
+    prepare_path(&cp, &pre.cbor, false, &|p| { let _ = log.to_cbor(p); });
     log.to_cbor(&cp).map_err(|_| "cbor-write")?;
     let bytes = std::fs::read(&cp).map_err(|_| "cbor-read")?;
     let _ = std::fs::remove_file(&cp);
-    let c: ciborium::Value = ciborium::de::from_reader(&bytes[..]).map_err(|_| "cbor-malformed")?;
-    let ciborium::Value::Map(top) = c else { return Err("cbor-shape") };
-    let get = |key: &str| top.iter().find(|(k, _)| k.as_text() == Some(key)).map(|(_, v)| v.clone());
-    let (Some(ciborium::Value::Array(names)), Some(ciborium::Value::Array(entries))) = (get("names"), get("entries")) else { return Err("cbor-shape") };
-    let mut cn = vec![];
-    for n in &names { cn.push(atomise(n.as_text().ok_or("cbor-shape")?)); }
-    let mut cs = vec![];
-    for m in &entries {
-        let ciborium::Value::Map(kv) = m else { return Err("cbor-shape") };
-        let mut v: Vec<(u64, String)> = vec![];
-        for (k, val) in kv {
-            let k = k.as_integer().and_then(|i| u64::try_from(i).ok()).ok_or("cbor-key")?;
-            v.push((k, canon_cbor(val)));
-        }
-        v.sort();
-        cs.push(list(v.into_iter().map(|(k, val)| list([k.to_string(), val]))));
-    }
+    let (cn, cs) = decode_cbor_file(&bytes)?;
     Ok([
         tagged("raw", rs),
         tagged("json", [tagged("names", jn), tagged("steps", js)]),
@@ -319,7 +412,20 @@ impl<P: Problem> EntryExtractor<P> for Named {
 // ------------------------------------------------------------------------------------------------
 // site `logger*`: programs over Block / Loop / Scope / Logger / SetX / AddX
 
-type TP = TagProblem;
+/// Problem of the `logger*` / `exp*` programs: nothing to optimise, a settable name (`par_experiment`
+/// names the log files `<problem>_<run>.cbor`).
+#[derive(Clone)]
+pub struct LP { name: String }
+impl LP { fn new(name: &str) -> LP { LP { name: name.to_string() } } }
+impl Problem for LP {
+    type Encoding = u64;
+    type Objective = SingleObjective;
+    fn name(&self) -> &str { &self.name }
+}
+impl KnownOptimumProblem for LP {
+    fn known_optimum(&self) -> SingleObjective { SingleObjective::try_from(0.0).unwrap() }
+}
+type TP = LP;
 
 fn mk_trigger(t: &Sx) -> Box<dyn Condition<TP>> {
     if let Some(a) = t.atom() {
@@ -376,49 +482,152 @@ fn build_prog(nodes: &[Sx], mut b: ConfigurationBuilder<TP>) -> ConfigurationBui
     b
 }
 
+/// Registers the rules of a `(rules …)` script (`noconfig`: no `configure_log` call at all).
+fn apply_rules(state: &mut State<TP>, rules: &Sx) -> ExecResult<()> {
+    if let Some((_, rs)) = rules.head() {
+        let apply = |c: &mut mahf::logging::LogConfig<TP>, r: &Sx| {
+            if r.atom() == Some("clear") { c.clear(); return; }
+            let (h, a) = r.head().unwrap();
+            if h == "many" {
+                c.with_many(mk_trigger(&a[0]), a[1..].iter().map(mk_extractor).collect::<Vec<_>>());
+            } else {
+                // the identity-lens rules go through `with_auto` (also the way `with_common` registers)
+                match a[1].atom() {
+                    Some("xid") => { c.with_auto::<X>(mk_trigger(&a[0])); }
+                    Some("iterid") => { c.with_auto::<Iterations>(mk_trigger(&a[0])); }
+                    _ => { c.with(mk_trigger(&a[0]), mk_extractor(&a[1])); }
+                }
+            }
+        };
+        if rs.len() >= 2 && rs.len() % 2 == 0 {
+            // "repeated calls of this method access the same LogConfig": one call per rule
+            for r in rs { state.configure_log(|c| { apply(c, r); Ok(()) })?; }
+        } else {
+            state.configure_log(|c| { for r in rs { apply(c, r); } Ok(()) })?;
+        }
+    }
+    Ok(())
+}
+
 fn run_program(input: &Sx) -> String {
     let items = input.items().unwrap();
     let rules = &items[1];
     let (_, tree) = items[2].head().unwrap();
     let config: Configuration<TP> = build_prog(tree, Configuration::builder()).build();
-    let problem = TagProblem;
+    let problem = LP::new("tag");
     let r = catch(|| {
         config.optimize_with(&problem, |state| {
             state.insert(Random::new(0));
-            if let Some((_, rs)) = rules.head() {
-                let apply = |c: &mut mahf::logging::LogConfig<TP>, r: &Sx| {
-                    if r.atom() == Some("clear") { c.clear(); return; }
-                    let (h, a) = r.head().unwrap();
-                    if h == "many" {
-                        c.with_many(mk_trigger(&a[0]), a[1..].iter().map(mk_extractor).collect::<Vec<_>>());
-                    } else {
-                        // the identity-lens rules go through `with_auto` (also the way `with_common` registers)
-                        match a[1].atom() {
-                            Some("xid") => { c.with_auto::<X>(mk_trigger(&a[0])); }
-                            Some("iterid") => { c.with_auto::<Iterations>(mk_trigger(&a[0])); }
-                            _ => { c.with(mk_trigger(&a[0]), mk_extractor(&a[1])); }
-                        }
-                    }
-                };
-                if rs.len() >= 2 && rs.len() % 2 == 0 {
-                    // "repeated calls of this method access the same LogConfig": one call per rule
-                    for r in rs { state.configure_log(|c| { apply(c, r); Ok(()) })?; }
-                } else {
-                    state.configure_log(|c| { for r in rs { apply(c, r); } Ok(()) })?;
-                }
-            }
-            Ok(())
+            apply_rules(state, rules)
         })
     });
     match r {
         None => "(res panic)".into(),
         Some(Err(_)) => "(res err)".into(),
-        Some(Ok(state)) => match export_log(&state.log()) {
+        Some(Ok(state)) => match export_log(&state.log(), &items.get(3).map(Pre::parse).unwrap_or_else(Pre::fresh)) {
             Ok([raw, j, c]) => list(["res".into(), "ok".into(), raw, j, c]),
             Err(e) => format!("(res export-{e})"),
         },
     }
 }
+
+// ------------------------------------------------------------------------------------------------
+// site `exp*`: a sequence of real `par_experiment` calls into ONE folder.
+// input  `(exp (pre PREFILE…) (calls (call RULES (tree N…) RUNS LOG (probs NAME…))…))`,
+//        PREFILE = `(cfgfile KIND)` | `(logfile NAME RUN KIND)`, KIND = `(junk n)` | `(older k)`, LOG = t | f
+// output `(exp (call RES (cfg TREE) (logs (f NAME RUN STATE)…) (other FILE…))…)` — after every call the folder is
+// read: `configuration.ron` as a tree (RON reader), every `<problem>_<run>.cbor` this call has to write decoded in full.
+
+fn exp_snapshot(dir: &std::path::Path, probs: &[String], runs: u64, log: bool) -> Vec<String> {
+    let cfg = match std::fs::read_to_string(dir.join("configuration.ron")) {
+        Err(_) => "missing".to_string(),
+        Ok(t) => ron_to_sexp(&t).unwrap_or_else(|| "unparsable".into()),
+    };
+    let mut expected: BTreeSet<String> = BTreeSet::new();
+    expected.insert("configuration.ron".into());
+    let mut logs = vec![];
+    if log {
+        for r in 0..runs {
+            for p in probs {
+                let fname = format!("{p}_{r}.cbor");
+                let st = match std::fs::read(dir.join(&fname)) {
+                    Err(_) => "missing".to_string(),
+                    Ok(bytes) => match decode_cbor_file(&bytes) {
+                        Ok((n, s)) => tagged("cbor", [tagged("names", n), tagged("steps", s)]),
+                        Err(e) => e.to_string(),
+                    },
+                };
+                expected.insert(fname);
+                logs.push(list(["f".into(), p.clone(), r.to_string(), st]));
+            }
+        }
+    }
+    let mut other: Vec<String> = std::fs::read_dir(dir).map(|rd| rd.filter_map(|e| e.ok())
+        .map(|e| e.file_name().to_string_lossy().to_string()).filter(|n| !expected.contains(n)).collect()).unwrap_or_default();
+    other.sort();
+    vec![list(["cfg".into(), cfg]), tagged("logs", logs), tagged("other", other)]
+}
+
+/// Runs in the CHILD process (`par_experiment` prints to stdout and draws a progress bar).
+fn exp_child(input: &Sx, dir: &std::path::Path) -> String {
+    let (_, a) = input.head().unwrap();
+    let (_, pre) = a[0].head().unwrap();
+    let (_, calls) = a[1].head().unwrap();
+    let _ = std::fs::remove_dir_all(dir);
+    for f in pre {
+        let (h, x) = f.head().unwrap();
+        let _ = std::fs::create_dir_all(dir);
+        let (path, kind, json) = match h {
+            "cfgfile" => (dir.join("configuration.ron"), PreKind::parse(&x[0]), true),
+            _ => (dir.join(format!("{}_{}.cbor", x[0].atom().unwrap(), x[1].nat().unwrap())), PreKind::parse(&x[2]), false),
+        };
+        prepare_path(&path, &kind, json, &|_| {});
+    }
+    let mut out = vec![];
+    for c in calls {
+        let (_, x) = c.head().unwrap();
+        let rules = &x[0];
+        let (_, tree) = x[1].head().unwrap();
+        let runs = x[2].nat().unwrap();
+        let log = x[3].atom() == Some("t");
+        let probs: Vec<String> = x[4].head().unwrap().1.iter().map(|p| p.atom().unwrap().to_string()).collect();
+        let problems: Vec<LP> = probs.iter().map(|p| LP::new(p)).collect();
+        let config: Configuration<TP> = build_prog(tree, Configuration::builder()).build();
+        let r = catch(|| mahf::experiments::par_experiment(&config, |state: &mut State<TP>| apply_rules(state, rules), &problems, runs, dir, log));
+        let mut items = vec!["call".to_string()];
+        match r {
+            Some(Ok(())) => { items.push("ok".into()); items.extend(exp_snapshot(dir, &probs, runs, log)); }
+            // a failing run aborts the experiment; which other runs were finished is not determined
+            Some(Err(_)) => { items.push("err".into()); items.push(exp_snapshot(dir, &probs, 0, false).remove(0)); }
+            None => { items.push("panic".into()); items.push(exp_snapshot(dir, &probs, 0, false).remove(0)); }
+        }
+        out.push(list(items));
+    }
+    tagged("exp", out)
+}
+
+/// Runs the cases in ONE child process (`par_experiment` prints to stdout and draws a progress bar).
+fn run_exp_batch(inputs: &[String]) -> Vec<String> {
+    static N: std::sync::atomic::AtomicU64 = std::sync::atomic::AtomicU64::new(0);
+    let k = N.fetch_add(1, std::sync::atomic::Ordering::SeqCst);
+    let dir = tmp_dir().join(format!("exp-{k}"));
+    let (inf, outf) = (tmp_dir().join(format!("exp-{k}.in")), tmp_dir().join(format!("exp-{k}.out")));
+    let _ = std::fs::remove_file(&outf);
+    let _ = std::fs::create_dir_all(&dir);
+    std::fs::write(&inf, inputs.join("\n")).expect("exp inputs");
+    let st = std::process::Command::new(std::env::current_exe().unwrap())
+        .args(["--exp-child", inf.to_str().unwrap(), dir.to_str().unwrap(), outf.to_str().unwrap()])
+        .stdin(std::process::Stdio::null()).stdout(std::process::Stdio::null()).stderr(std::process::Stdio::null()).status();
+    let res: Vec<String> = match (st, std::fs::read_to_string(&outf)) {
+        (Ok(s), Ok(t)) if s.success() && t.lines().count() == inputs.len() => t.lines().map(|l| l.to_string()).collect(),
+        _ => inputs.iter().map(|_| "(exp child-failed)".to_string()).collect(),
+    };
+    let _ = std::fs::remove_dir_all(&dir);
+    let _ = std::fs::remove_file(&inf);
+    let _ = std::fs::remove_file(&outf);
+    res
+}
+fn run_exp(input: &Sx) -> String { run_exp_batch(&[input.render()]).remove(0) }
 
 fn has_root_loop(tree: &[Sx]) -> bool {
     tree.iter().any(|n| match n.head() {
@@ -448,14 +657,14 @@ fn run_floats(input: &Sx) -> String {
     let config: Configuration<TP> = Configuration::builder()
         .while_(LessThanN::iterations(n), move |b| b.do_(Box::new(SetYSeq(vals.clone()))).do_(Logger::new()))
         .build();
-    let r = catch(|| config.optimize_with(&TagProblem, |state| {
+    let r = catch(|| config.optimize_with(&LP::new("tag"), |state| {
         state.insert(Random::new(0));
         state.configure_log(|c| { c.with_auto::<Y>(Box::new(Const(true))); Ok(()) })
     }));
     match r {
         None => "(res panic)".into(),
         Some(Err(_)) => "(res err)".into(),
-        Some(Ok(state)) => match export_log(&state.log()) {
+        Some(Ok(state)) => match export_log(&state.log(), &Pre::fresh()) {
             Ok([raw, j, c]) => list(["res".into(), "ok".into(), raw, j, c]),
             Err(e) => format!("(res export-{e})"),
         },
@@ -470,7 +679,7 @@ const N_ITER: &str = "mahf::state::common::Iterations";
 const N_EVAL: &str = "mahf::state::common::Evaluations";
 const N_PROG: &str = "mahf::state::common::Progress<mahf::lens::common::ValueOf<mahf::state::common::Iterations>>";
 
-struct LogRun { rules: Vec<(u32, String, String)>, seed: u64 }
+struct LogRun { rules: Vec<(u32, String, String)>, seed: u64, pre: Pre }
 impl ConfigUser for LogRun {
     type Out = String;
     fn use_config<P: HProblem>(self, config: &Configuration<P>, problem: &P) -> String {
@@ -522,7 +731,7 @@ impl ConfigUser for LogRun {
         match r {
             None => "(res panic)".into(),
             Some(Err(_)) => "(res err)".into(),
-            Some(Ok(state)) => match export_log(&state.log()) {
+            Some(Ok(state)) => match export_log(&state.log(), &self.pre) {
                 Ok([raw, j, c]) => {
                     let wit = tagged("wit", snaps.lock().unwrap().clone());
                     list(["res".into(), "ok".into(), wit, raw, j, c])
@@ -543,17 +752,154 @@ fn run_template_log(input: &Sx) -> String {
     }).collect();
     let name = it[2].atom().unwrap();
     let (v, inst, iters, seed) = (it[3].nat().unwrap() as u32, it[4].nat().unwrap() as u32, it[5].nat().unwrap() as u32, it[6].nat().unwrap());
-    match with_template(name, v, inst, iters, LogRun { rules, seed }) {
+    let pre = it.get(7).map(Pre::parse).unwrap_or_else(Pre::fresh);
+    match with_template(name, v, inst, iters, LogRun { rules, seed, pre }) {
         Ok(s) => s,
         Err(_) => "(res ctor-err)".into(),
     }
 }
 
 // ------------------------------------------------------------------------------------------------
+// RON reader: the text written by `Configuration::to_ron` → the S-expression form of `hcommon::sertree`
+// (`(S Name (field v)…)`, `(N Name v)`, `(T Name v…)`, `(U Name)`, `(seq v…)`, `(map (k v)…)`, `(tuple v…)`,
+// `(str s)`, `none`, `(some v)`, integers as digits, floats as `x` + bits). `None` unless the WHOLE text is one value.
+
+struct Rp<'a> { s: &'a [u8], i: usize }
+impl<'a> Rp<'a> {
+    fn ws(&mut self) {
+        loop {
+            while self.i < self.s.len() && (self.s[self.i] as char).is_ascii_whitespace() { self.i += 1; }
+            if self.s[self.i..].starts_with(b"//") { while self.i < self.s.len() && self.s[self.i] != b'\n' { self.i += 1; } } else { break; }
+        }
+    }
+    fn peek(&mut self) -> Option<u8> { self.ws(); self.s.get(self.i).copied() }
+    fn ident(&mut self) -> Option<String> {
+        self.ws();
+        let st = self.i;
+        while self.i < self.s.len() && (self.s[self.i].is_ascii_alphanumeric() || self.s[self.i] == b'_') { self.i += 1; }
+        if st == self.i { None } else { std::str::from_utf8(&self.s[st..self.i]).ok().map(|t| t.to_string()) }
+    }
+    fn string(&mut self) -> Option<String> {
+        // opening quote already seen at self.i
+        self.i += 1;
+        let mut out = Vec::new();
+        loop {
+            let c = *self.s.get(self.i)?;
+            self.i += 1;
+            match c {
+                b'"' => break,
+                b'\\' => {
+                    let e = *self.s.get(self.i)?;
+                    self.i += 1;
+                    match e { b'n' => out.push(b'\n'), b't' => out.push(b'\t'), b'r' => out.push(b'\r'), b'0' => out.push(0),
+                              b'u' | b'x' => return None, other => out.push(other) }
+                }
+                c => out.push(c),
+            }
+        }
+        String::from_utf8(out).ok()
+    }
+    /// items between an opening bracket (already consumed) and `close`: `(optional field name, value)`
+    fn items(&mut self, close: u8) -> Option<Vec<(Option<String>, String)>> {
+        let mut v = vec![];
+        loop {
+            if self.peek()? == close { self.i += 1; return Some(v); }
+            // `name: value`?
+            let save = self.i;
+            let mut field = None;
+            if let Some(id) = self.ident() {
+                if self.peek() == Some(b':') && self.s.get(self.i + 1) != Some(&b':') { self.i += 1; field = Some(id); } else { self.i = save; }
+            }
+            let val = self.value()?;
+            v.push((field, val));
+            match self.peek()? { b',' => self.i += 1, c if c == close => {} _ => return None }
+        }
+    }
+    fn compound(name: Option<&str>, items: Vec<(Option<String>, String)>) -> String {
+        let named = !items.is_empty() && items.iter().all(|(f, _)| f.is_some());
+        match name {
+            Some("Some") if items.len() == 1 => format!("(some {})", items[0].1),
+            Some(n) if named => tagged(&format!("S {}", atomise(n)), items.into_iter().map(|(f, v)| list([f.unwrap(), v]))),
+            Some(n) if items.len() == 1 => format!("(N {} {})", atomise(n), items[0].1),
+            Some(n) if items.is_empty() => format!("(S {})", atomise(n)),
+            Some(n) => tagged(&format!("T {}", atomise(n)), items.into_iter().map(|(_, v)| v)),
+            None if named => tagged("S _", items.into_iter().map(|(f, v)| list([f.unwrap(), v]))),
+            None if items.is_empty() => "unit".into(),
+            None => tagged("tuple", items.into_iter().map(|(_, v)| v)),
+        }
+    }
+    fn value(&mut self) -> Option<String> {
+        match self.peek()? {
+            b'[' => { self.i += 1; let it = self.items(b']')?; Some(tagged("seq", it.into_iter().map(|(_, v)| v))) }
+            b'(' => { self.i += 1; let it = self.items(b')')?; Some(Self::compound(None, it)) }
+            b'{' => {
+                self.i += 1;
+                let mut kv = vec![];
+                loop {
+                    if self.peek()? == b'}' { self.i += 1; break; }
+                    let k = self.value()?;
+                    if self.peek()? != b':' { return None; }
+                    self.i += 1;
+                    let v = self.value()?;
+                    kv.push(list([k, v]));
+                    match self.peek()? { b',' => self.i += 1, b'}' => {} _ => return None }
+                }
+                Some(tagged("map", kv))
+            }
+            b'"' => self.string().map(|t| format!("(str {})", atomise(&t))),
+            b'\'' => {
+                let c = *self.s.get(self.i + 1)?;
+                if self.s.get(self.i + 2) != Some(&b'\'') { return None; }
+                self.i += 3;
+                Some(atomise(&(c as char).to_string()))
+            }
+            c if c.is_ascii_digit() || c == b'-' || c == b'+' || c == b'.' => {
+                let st = self.i;
+                self.i += 1;
+                while self.i < self.s.len() && (self.s[self.i].is_ascii_alphanumeric() || matches!(self.s[self.i], b'.' | b'-' | b'+' | b'_')) { self.i += 1; }
+                let t = std::str::from_utf8(&self.s[st..self.i]).ok()?;
+                if t.contains(['.', 'e', 'E']) || t.ends_with("inf") || t.ends_with("NaN") { t.parse::<f64>().ok().map(fx) }
+                else if t.strip_prefix(['-', '+']).unwrap_or(t).bytes().all(|b| b.is_ascii_digit()) { Some(t.trim_start_matches('+').to_string()) }
+                else { None }
+            }
+            _ => {
+                let id = self.ident()?;
+                match id.as_str() {
+                    "true" | "false" => return Some(id),
+                    "None" => return Some("none".into()),
+                    "inf" => return Some(fx(f64::INFINITY)),
+                    "NaN" => return Some(fx(f64::NAN)),
+                    _ => {}
+                }
+                // a struct name may be followed by its fields
+                let save = self.i;
+                if self.peek() == Some(b'(') { self.i += 1; let it = self.items(b')')?; Some(Self::compound(Some(&id), it)) }
+                else { self.i = save; Some(format!("(U {})", atomise(&id))) }
+            }
+        }
+    }
+}
+fn ron_to_sexp(text: &str) -> Option<String> {
+    let mut p = Rp { s: text.as_bytes(), i: 0 };
+    let v = p.value()?;
+    p.ws();
+    if p.i == text.len() { Some(v) } else { None }
+}
+
+// ------------------------------------------------------------------------------------------------
 // configuration export
 
-fn ron_of<P: Problem>(config: &Configuration<P>, tag: &str) -> Result<String, ()> {
+/// What the `.ron` path holds before `Configuration::to_ron` writes to it.
+enum RonPre<'a> { Fresh, Junk(u64), Text(&'a str) }
+/// The text `to_ron` leaves at a path in the state `pre` (the whole file).
+fn ron_of_pre<P: Problem>(config: &Configuration<P>, tag: &str, pre: RonPre) -> Result<String, ()> {
     let p = tmp_dir().join(format!("{tag}.ron"));
+    let _ = std::fs::remove_file(&p);
+    match pre {
+        RonPre::Fresh => {}
+        RonPre::Junk(n) => { let _ = std::fs::write(&p, junk_bytes(n)); }
+        RonPre::Text(t) => { let _ = std::fs::write(&p, t); }
+    }
     let r = catch(|| config.to_ron(&p));
     let out = match r {
         Some(Ok(())) => std::fs::read_to_string(&p).map_err(|_| ()),
@@ -561,6 +907,11 @@ fn ron_of<P: Problem>(config: &Configuration<P>, tag: &str) -> Result<String, ()
     };
     let _ = std::fs::remove_file(&p);
     out
+}
+fn ron_of<P: Problem>(config: &Configuration<P>, tag: &str) -> Result<String, ()> { ron_of_pre(config, tag, RonPre::Fresh) }
+/// The export read back (`unparsable` unless the whole text is one RON value).
+fn ron_tree(text: &Result<String, ()>) -> Result<String, ()> {
+    match text { Ok(t) => Ok(ron_to_sexp(t).unwrap_or_else(|| "unparsable".into())), Err(()) => Err(()) }
 }
 fn json_of<P: Problem>(config: &Configuration<P>) -> Result<String, ()> {
     match catch(|| serde_json::to_string(config.heuristic())) {
@@ -580,7 +931,8 @@ struct SerTemplate;
 impl ConfigUser for SerTemplate {
     type Out = String;
     fn use_config<P: HProblem>(self, config: &Configuration<P>, problem: &P) -> String {
-        let ron = ron_of(config, "t");
+        // the export replaces whatever the path held (here: more junk than any template's export is long) and parses as a whole
+        let ron = ron_of_pre(config, "t", RonPre::Junk(300_000)).and_then(|t| if ron_to_sexp(&t).is_some() { Ok(t) } else { Err(()) });
         let json = json_of(config);
         let cl = config.clone();
         let clone_eq = ron_of(&cl, "tc") == ron && json_of(&cl) == json && ron.is_ok();
@@ -610,18 +962,22 @@ impl ConfigUser for SerTemplate {
     }
 }
 
-struct SerBoth;
+/// (bytes of junk the `.ron` path holds before the export)
+struct SerBoth(u64);
 impl ConfigUser for SerBoth {
     type Out = Ser3;
     fn use_config<P: HProblem>(self, config: &Configuration<P>, _problem: &P) -> Self::Out {
-        let (r, j, t) = (ron_of(config, "p"), json_of(config), tree_of(config));
+        let (r, j, t) = (ron_of_pre(config, "p", RonPre::Junk(self.0)), json_of(config), tree_of(config));
+        let r = r.and_then(|t| if ron_to_sexp(&t).is_some() { Ok(t) } else { Err(()) });
         let cl = config.clone();
         let ceq = ron_of(&cl, "pc") == r && json_of(&cl) == j && tree_of(&cl) == t;
-        (r, j, ceq, t)
+        let rt = ron_tree(&r);
+        (r, j, ceq, t, rt)
     }
 }
 
-type Ser3 = (Result<String, ()>, Result<String, ()>, bool, Result<String, ()>);
+/// (RON text, JSON text, clone exports identically, name-preserving traversal, RON text read back)
+type Ser3 = (Result<String, ()>, Result<String, ()>, bool, Result<String, ()>, Result<String, ()>);
 fn tree_of<P: Problem>(config: &Configuration<P>) -> Result<String, ()> {
     match catch(|| hcommon::sertree::to_sexp(config.heuristic())) {
         Some(Ok(s)) => Ok(s),
@@ -884,14 +1240,15 @@ fn mk_comp(n: &Sx) -> Box<dyn Component<SP>> {
         _ => panic!("comp {name}"),
     }
 }
-fn ser_tree(n: &Sx, tag: &str) -> Ser3 {
+fn ser_tree(n: &Sx, tag: &str, pre: RonPre) -> Ser3 {
     match catch(|| Configuration::<SP>::new(mk_comp(n))) {
-        None => (Err(()), Err(()), false, Err(())),
+        None => (Err(()), Err(()), false, Err(()), Err(())),
         Some(config) => {
-            let (r, j, t) = (ron_of(&config, tag), json_of(&config), tree_of(&config));
+            let (r, j, t) = (ron_of_pre(&config, tag, pre), json_of(&config), tree_of(&config));
             let cl = config.clone();
             let ceq = ron_of(&cl, "gc") == r && json_of(&cl) == j && tree_of(&cl) == t;
-            (r, j, ceq, t)
+            let rt = ron_tree(&r);
+            (r, j, ceq, t, rt)
         }
     }
 }
@@ -1042,7 +1399,7 @@ fn pair_site(kind: &str) -> String {
 fn pair_out_trees(a: &Ser3, bb: &Ser3, json_relevant: bool) -> String {
     let base = pair_out(a, bb, json_relevant);
     let tr = |t: &Result<String, ()>| t.clone().unwrap_or_else(|_| "err".into());
-    format!("{} (ta {}) (tb {}))", &base[..base.len() - 1], tr(&a.3), tr(&bb.3))
+    format!("{} (ta {}) (tb {}) (ra {}) (rb {}))", &base[..base.len() - 1], tr(&a.3), tr(&bb.3), tr(&a.4), tr(&bb.4))
 }
 
 fn run_cfg(input: &Sx) -> String {
@@ -1054,8 +1411,8 @@ fn run_cfg(input: &Sx) -> String {
         }
         "tpair" => {
             let name = it[2].atom().unwrap();
-            let a = with_template(name, it[3].nat().unwrap() as u32, 0, it[4].nat().unwrap() as u32, SerBoth);
-            let bb = with_template(name, it[5].nat().unwrap() as u32, 0, it[6].nat().unwrap() as u32, SerBoth);
+            let a = with_template(name, it[3].nat().unwrap() as u32, 0, it[4].nat().unwrap() as u32, SerBoth(0));
+            let bb = with_template(name, it[5].nat().unwrap() as u32, 0, it[6].nat().unwrap() as u32, SerBoth(300_000));
             match (a, bb) {
                 (Ok(a), Ok(bb)) => pair_out(&a, &bb, true),
                 _ => "(pair ctor-err)".into(),
@@ -1063,8 +1420,9 @@ fn run_cfg(input: &Sx) -> String {
         }
         "pair" => {
             let kind = it[2].atom().unwrap();
-            let a = ser_tree(&it[3], "ga");
-            let bb = ser_tree(&it[4], "gb");
+            // `a` replaces junk, `b` is written to the path that holds the export of `a` (longer, shorter or equally long)
+            let a = ser_tree(&it[3], "ga", RonPre::Junk(20_000));
+            let bb = match &a.0 { Ok(t) => ser_tree(&it[4], "ga", RonPre::Text(t)), Err(()) => ser_tree(&it[4], "ga", RonPre::Fresh) };
             pair_out_trees(&a, &bb, kind == "same" || kind == "param" || kind.starts_with("typaram"))
         }
         other => panic!("cfg {other}"),
@@ -1079,6 +1437,7 @@ fn run_case(input: &Sx) -> String {
         Some("tl") => run_template_log(input),
         Some("fl") => run_floats(input),
         Some("cfg") => run_cfg(input),
+        Some("exp") => run_exp(input),
         _ => panic!("unknown case"),
     }
 }
@@ -1090,6 +1449,10 @@ fn site_of(input: &Sx) -> String {
             if has_root_loop(tree) { "logger".into() } else { "logger-noloop".into() }
         }
         "tl" => "template-log".into(),
+        "exp" => {
+            let fresh = it[1].items().map(|p| p.len() == 1).unwrap_or(false) && it[2].items().map(|c| c.len() == 2).unwrap_or(false);
+            if fresh { "exp".into() } else { "exp-reuse".into() }
+        }
         "fl" => if it[1..].iter().all(|v| v.float().map(|f| f.is_finite()).unwrap_or(false)) { "logger-float".into() } else { "logger-float-nonfinite".into() },
         _ => if it[1].atom() == Some("pair") { pair_site(it[2].atom().unwrap()) } else { format!("cfg-{}", it[1].atom().unwrap()) },
     }
@@ -1133,8 +1496,72 @@ fn gen_nodes(r: &mut Sm, depth: u32, len: u64) -> Vec<String> {
     }).collect()
 }
 
+/// States of an export path before the export: missing, the same export, junk and older exports that are
+/// shorter / about as long / (much) longer than the new export.
+const PRE_MENU: [&str; 14] = ["fresh", "same", "(junk 0)", "(junk 1)", "(junk 17)", "(junk 300)", "(junk 5000)", "(junk 40000)",
+    "(older 0)", "(older 1)", "(older 3)", "(older 12)", "(older 60)", "(older 400)"];
+fn gen_pre(r: &mut Sm) -> String { format!("(pre {} {})", r.pick(&PRE_MENU), r.pick(&PRE_MENU)) }
+
+/// Rule sets of the `exp*` cases (no scripted failure unless asked for: a failing run aborts the experiment).
+fn gen_exp_rules(r: &mut Sm, allow_err: bool) -> String {
+    let nr = r.range(1, 3);
+    tagged("rules", (0..nr).map(|_| {
+        let t = loop { let t = gen_trig(r); if allow_err || !t.contains(" e") { break t; } };
+        format!("(r {} {})", t, gen_ext(r))
+    }))
+}
+/// A program with a loop at the root.
+fn gen_exp_tree(r: &mut Sm) -> String {
+    let len = r.range(1, 3);
+    let mut tree = gen_nodes(r, 2, len);
+    if !tree.iter().any(|t| t.starts_with("(loop")) {
+        let n = r.below(6);
+        let l = r.range(1, 3);
+        let body = gen_nodes(r, 1, l);
+        let pos = r.below(tree.len() as u64 + 1) as usize;
+        tree.insert(pos, tagged(&format!("loop {n}"), body));
+    }
+    tagged("tree", tree)
+}
+/// The same text with exactly one number replaced by another one (a parameter value of one node).
+fn change_one_number(r: &mut Sm, t: &str) -> String {
+    let b = t.as_bytes();
+    let mut spans = vec![];
+    let mut i = 0;
+    while i < b.len() {
+        if b[i].is_ascii_digit() { let st = i; while i < b.len() && b[i].is_ascii_digit() { i += 1; } spans.push((st, i)); } else { i += 1; }
+    }
+    if spans.is_empty() { return t.to_string(); }
+    let (st, en) = *r.pick(&spans);
+    let old: u64 = t[st..en].parse().unwrap();
+    let new = loop { let v = *r.pick(&[0u64, 1, 2, 3, 4, 5, 7, 12, 40]); if v != old { break v; } };
+    format!("{}{}{}", &t[..st], new, &t[en..])
+}
+fn exp_call(rules: &str, tree: &str, runs: u64, log: bool, probs: &[&str]) -> String {
+    format!("(call {rules} {tree} {runs} {} {})", b(log), tagged("probs", probs.iter().map(|p| p.to_string())))
+}
+
 fn main() {
     quiet_panics();
+    {
+        let v: Vec<String> = std::env::args().collect();
+        if v.len() == 5 && v[1] == "--exp-child" {
+            // one input per line of v[2] → one output per line of v[4]; every case in its own (fresh) folder under v[3]
+            let inputs = std::fs::read_to_string(&v[2]).expect("exp inputs");
+            let mut res = String::new();
+            for (i, line) in inputs.lines().enumerate() {
+                let sx = Sx::parse(line).expect("bad exp input");
+                let dir = std::path::Path::new(&v[3]).join(format!("e{i}"));
+                let one = catch(|| exp_child(&sx, &dir)).unwrap_or_else(|| "(exp child-panic)".into());
+                let _ = std::fs::remove_dir_all(&dir);
+                res.push_str(&one);
+                res.push('\n');
+            }
+            std::fs::write(&v[4], res).expect("write result");
+            let _ = std::fs::remove_dir_all(tmp_dir());
+            return;
+        }
+    }
     let a = args();
     let mut out = Out::new();
     if let Some(r) = a.replay {
@@ -1205,12 +1632,20 @@ fn main() {
         Box::new(|n| format!("(tree (scope (loop {n} (log))) (log))")),
         Box::new(|n| format!("(tree (scope (setx 1) (loop {n} (log) (addx 1))))")),
     ];
+    let mut k = 0usize;
     for rs in &rule_sets {
         for p in &placements {
             for n in 0..=5u64 {
                 let tree = p(n);
                 if rs.contains("changed") && tree.contains("(scope") { continue; }
-                emit(format!("(lg {} {})", rs, tree));
+                // every second case exports to paths that already hold something (walking through all pairs of the menu)
+                k += 1;
+                if k % 2 == 0 {
+                    let j = (k / 2) % (PRE_MENU.len() * PRE_MENU.len());
+                    emit(format!("(lg {} {} (pre {} {}))", rs, tree, PRE_MENU[j % PRE_MENU.len()], PRE_MENU[j / PRE_MENU.len()]));
+                } else {
+                    emit(format!("(lg {} {})", rs, tree));
+                }
             }
         }
     }
@@ -1247,7 +1682,8 @@ fn main() {
             }).collect();
             tagged("rules", items)
         };
-        emit(format!("(lg {} {})", rules, tagged("tree", tree)));
+        if r.chance(1, if a.thorough { 5 } else { 2 }) { emit(format!("(lg {} {} {})", rules, tagged("tree", tree), gen_pre(&mut r))); }
+        else { emit(format!("(lg {} {})", rules, tagged("tree", tree))); }
     }
 
     // 2b. float values through the exports (bit-exact), finite and non-finite
@@ -1289,7 +1725,9 @@ fn main() {
             for _ in 0..reps {
                 let (k1, k2, k3) = (r.range(0, 3), r.range(1, 4), r.range(0, 5));
                 let iters = r.below(8);
-                emit(format!("(tl {} {} {} {} {} {})", tl_rules(k1, k2, k3), name, v, r.below(N_INSTANCES as u64), iters, r.below(1000)));
+                let (inst, sd) = (r.below(N_INSTANCES as u64), r.below(1000));
+                if r.chance(1, 2) { emit(format!("(tl {} {} {} {} {} {} {})", tl_rules(k1, k2, k3), name, v, inst, iters, sd, gen_pre(&mut r))); }
+                else { emit(format!("(tl {} {} {} {} {} {})", tl_rules(k1, k2, k3), name, v, inst, iters, sd)); }
             }
         }
     }
@@ -1354,6 +1792,87 @@ fn main() {
                     break;
                 }
             }
+        }
+    }
+    // 5. experiments: sequences of `par_experiment` calls into one folder (run in batches, one child process each)
+    let mut exp_inputs: Vec<String> = vec![];
+    {
+        let mut emit = |input: String| exp_inputs.push(input);
+        let r1 = "(rules (r always xid) (r (every 2) (named 1 iter)))";
+        let r2 = "(rules (r (every 2) xval))";
+        let t = |n: u64, v: u64| format!("(tree (setx {v}) (loop {n} (log) (addx 1)))");
+        let base = exp_call(r1, &t(3, 0), 2, true, &["p0", "p1"]);
+        // a fresh folder
+        emit(format!("(exp (pre) (calls {base}))"));
+        emit(format!("(exp (pre) (calls {}))", exp_call(r1, &t(3, 0), 0, true, &["p0"])));
+        emit(format!("(exp (pre) (calls {}))", exp_call(r1, &t(3, 0), 2, false, &["p0"])));
+        emit(format!("(exp (pre) (calls {}))", exp_call("noconfig", &t(3, 0), 1, true, &["p0"])));
+        emit(format!("(exp (pre) (calls {}))", exp_call(r1, &t(3, 0), 2, true, &[])));
+        // the folder of an earlier experiment that differed in exactly one respect
+        let seconds = [
+            exp_call(r1, &t(5, 0), 2, true, &["p0", "p1"]),   // a parameter value: more iterations (longer logs)
+            exp_call(r1, &t(1, 0), 2, true, &["p0", "p1"]),   // … fewer (shorter logs)
+            exp_call(r1, &t(0, 0), 2, true, &["p0", "p1"]),   // … none (empty logs)
+            exp_call(r1, &t(3, 4), 2, true, &["p0", "p1"]),   // another parameter value, logs equally long
+            exp_call(r1, &t(40, 0), 2, true, &["p0", "p1"]),
+            exp_call(r2, &t(3, 0), 2, true, &["p0", "p1"]),   // the same configuration, a sparser log
+            exp_call(r1, &t(3, 0), 1, true, &["p0", "p1"]),   // fewer runs
+            exp_call(r1, &t(3, 0), 3, true, &["p0", "p1"]),   // more runs
+            exp_call(r1, &t(3, 0), 2, true, &["p1"]),         // fewer problems
+            exp_call(r1, &t(3, 0), 2, true, &["p1", "p2"]),   // other problems
+            exp_call(r1, &t(3, 0), 2, false, &["p0", "p1"]),  // no logs this time
+            exp_call(r1, "(tree (setx 0) (loop 3 (log) (addx 1)) (log))", 2, true, &["p0", "p1"]),   // one node more
+            exp_call(r1, "(tree (loop 3 (log) (addx 1)))", 2, true, &["p0", "p1"]),                   // one node fewer
+            exp_call(r1, "(tree (setx 0) (loop 3 (scope (log)) (addx 1)))", 2, true, &["p0", "p1"]),  // other nesting
+            base.clone(),                                     // the identical experiment again
+        ];
+        for s2 in &seconds {
+            emit(format!("(exp (pre) (calls {base} {s2}))"));
+            emit(format!("(exp (pre) (calls {s2} {base}))"));
+        }
+        // a folder that holds junk / older exports under the names the experiment writes to
+        for kind in ["(junk 0)", "(junk 40)", "(junk 20000)", "(older 2)", "(older 300)"] {
+            emit(format!("(exp (pre (cfgfile {kind})) (calls {base}))"));
+            emit(format!("(exp (pre (logfile p0 0 {kind}) (logfile p1 1 {kind})) (calls {base}))"));
+            emit(format!("(exp (pre (cfgfile {kind}) (logfile p0 1 {kind}) (logfile p0 7 {kind})) (calls {base} {}))", seconds[1]));
+        }
+        // a failing run aborts the experiment; the next experiment in the folder is on its own again
+        let failing = exp_call("(rules (r (script t t e) xid))", &t(3, 0), 2, true, &["p0"]);
+        emit(format!("(exp (pre) (calls {failing}))"));
+        emit(format!("(exp (pre) (calls {failing} {base}))"));
+        emit(format!("(exp (pre) (calls {base} {failing} {}))", seconds[1]));
+        // random sequences
+        let n_exp = if a.thorough { 2500 } else { 110 };
+        let prob_sets: [&[&str]; 5] = [&["p0"], &["p0"], &["p0", "p1"], &["p1"], &["tag", "p0"]];
+        for _ in 0..n_exp {
+            let ncalls = r.range(1, 3);
+            let mut calls: Vec<String> = vec![];
+            let (mut rules, mut tree) = (String::new(), String::new());
+            for i in 0..ncalls {
+                // the next call: the same experiment with exactly one parameter value changed, with other rules, or another one altogether
+                match if i == 0 { 9 } else { r.below(4) } {
+                    0 | 1 => { tree = change_one_number(&mut r, &tree); }
+                    2 => { rules = gen_exp_rules(&mut r, false); }
+                    _ => { tree = gen_exp_tree(&mut r); let e = r.chance(1, 16); rules = gen_exp_rules(&mut r, e); }
+                }
+                // (a ChangeOf trigger is not generated here; `noconfig` sometimes)
+                let rl = if r.chance(1, 20) { "noconfig".to_string() } else { rules.clone() };
+                calls.push(exp_call(&rl, &tree, r.range(0, 3), !r.chance(1, 6), *r.pick(&prob_sets)));
+            }
+            let mut pre: Vec<String> = vec![];
+            if r.chance(1, 3) {
+                for _ in 0..r.range(1, 3) {
+                    let kind = *r.pick(&["(junk 0)", "(junk 9)", "(junk 700)", "(junk 30000)", "(older 0)", "(older 5)", "(older 100)"]);
+                    pre.push(if r.chance(1, 3) { format!("(cfgfile {kind})") } else { format!("(logfile {} {} {kind})", *r.pick(&["p0", "p1", "tag"]), r.below(3)) });
+                }
+            }
+            emit(format!("(exp {} {})", tagged("pre", pre), tagged("calls", calls)));
+        }
+    }
+    for chunk in exp_inputs.chunks(250) {
+        for (input, res) in chunk.iter().zip(run_exp_batch(chunk)) {
+            let sx = Sx::parse(input).unwrap();
+            out.case(&site_of(&sx), input, &res);
         }
     }
     out.finish();
